@@ -144,14 +144,27 @@ func runC18(t *testing.T, c ByteCase) (*h.Violation, h.Info) {
 	if err != nil {
 		return h.V("harness", "cache: %v", err), info
 	}
-	st, err := setec.NewStore(ctx, setec.StoreConfig{Client: cl, Secrets: []string{"s"}, Cache: fcache, PollInterval: -1, Logf: func(string, ...any) {}})
+	// the program also has the secret filled into a field of its own configuration struct ...
+	var own struct {
+		S []byte `setec:"s"`
+	}
+	earlier := "an earlier version, rather longer than many of the values that replace it: " + strings.Repeat("=", 300)
+	st, err := setec.NewStore(ctx, setec.StoreConfig{Client: cl, Secrets: []string{"s"}, Structs: []setec.Struct{{Value: &own}}, Cache: fcache, PollInterval: -1, Logf: func(string, ...any) {}})
 	if err != nil {
 		return h.V("harness", "NewStore: %v", err), info
 	}
 	defer st.Close()
+	// ... and wipes that copy after use: the Store, its cache and everything reading it still have the value
+	for i := range own.S {
+		own.S[i] = 0
+	}
+	if got := st.Secret("s").Get(); string(got) != earlier {
+		return h.V("bytes-round-trip-unchanged", "the program wiped its own copy of the secret (a []byte struct field filled by the Store); the Store's handle now yields %.40q... instead of the value that was put", got), info
+	}
 	// a caller keeps the bytes it got from the handle (the documentation lets it): they are its to keep
 	held := st.Secret("s").Get()
 	heldCopy := append([]byte{}, held...)
+	outageHeld := c.Outage
 	if c.Outage {
 		var perr error
 		if c.ShortWrite {
@@ -162,26 +175,29 @@ func runC18(t *testing.T, c ByteCase) (*h.Violation, h.Info) {
 			syscall.Setrlimit(syscall.RLIMIT_FSIZE, &old)
 			info.Class("first-put-hit-a-short-write")
 		} else {
-			away := dir + ".away"
-			if err := os.Rename(dir, away); err != nil {
-				return h.V("harness", "rename: %v", err), info
+			hd, err := dbx.Outage(dir, func() { _, perr = cl.Put(ctx, "s", append([]byte{}, val...)) })
+			if err != nil {
+				return h.V("harness", "%v", err), info
 			}
-			_, perr = cl.Put(ctx, "s", append([]byte{}, val...))
-			if err := os.Rename(away, dir); err != nil {
-				return h.V("harness", "rename back: %v", err), info
-			}
+			outageHeld = hd // (not held: the code put the directory back itself and carried on - an ordinary put)
 		}
-		if perr == nil {
+		if outageHeld && perr == nil {
 			return h.V("bytes-round-trip-unchanged", "Put reported success while the database could not be written: the value cannot be on disk"), info
 		}
-		info.Class("first-put-failed-then-repeated")
-		// a server restarted at THIS moment still has everything that was acknowledged before
-		raw, rerr := os.ReadFile(path)
-		if rerr != nil {
-			return h.V("bytes-round-trip-unchanged", "after a put that failed (%v) the database file is gone: %v - a restart now would lose every acknowledged value", perr, rerr), info
-		}
-		if kv, derr := model.DecodeDBFile(raw, dbx.DummyKey()); derr != nil || kv["s"] == nil || !strings.HasPrefix(kv["s"].Vers[1], "an earlier version") {
-			return h.V("bytes-round-trip-unchanged", "after a put that failed (%v) the database file no longer holds the earlier, acknowledged version of the secret (%v)", perr, derr), info
+		if !outageHeld {
+			if perr != nil {
+				return h.V("put-accepts-any-bytes", "Put of %d bytes (%s): %v", len(val), c.Class, perr), info
+			}
+		} else {
+			info.Class("first-put-failed-then-repeated")
+			// a server restarted at THIS moment still has everything that was acknowledged before
+			raw, rerr := os.ReadFile(path)
+			if rerr != nil {
+				return h.V("bytes-round-trip-unchanged", "after a put that failed (%v) the database file is gone: %v - a restart now would lose every acknowledged value", perr, rerr), info
+			}
+			if kv, derr := model.DecodeDBFile(raw, dbx.DummyKey()); derr != nil || kv["s"] == nil || !strings.HasPrefix(kv["s"].Vers[1], "an earlier version") {
+				return h.V("bytes-round-trip-unchanged", "after a put that failed (%v) the database file no longer holds the earlier, acknowledged version of the secret (%v)", perr, derr), info
+			}
 		}
 	}
 	ver, err := cl.Put(ctx, "s", append([]byte{}, val...))
@@ -259,6 +275,18 @@ func runC18(t *testing.T, c ByteCase) (*h.Violation, h.Info) {
 	if v := same("get after restart", valOf(sv), err); v != nil {
 		return v, info
 	}
+	// the restarted server goes on working (it writes), and is restarted once more
+	if _, err := d2.Put(dbx.Super().DB(), "written-after-restart", []byte("x")); err != nil {
+		return h.V("bytes-round-trip-unchanged", "a put on the restarted server: %v", err), info
+	}
+	d3, err := dbx.OpenDiscard(path, dbx.DummyKey())
+	if err != nil {
+		return h.V("bytes-round-trip-unchanged", "second restart (after the restarted server had written once): %v", err), info
+	}
+	sv, err = d3.Get(dbx.Super().DB(), "s")
+	if v := same("get after a restart, a write and another restart", valOf(sv), err); v != nil {
+		return v, info
+	}
 	// through the running Store (which picks the value up by polling), its cache, and a file client reading that cache
 	if err := st.Refresh(ctx); err != nil {
 		return h.V("bytes-round-trip-unchanged", "Store.Refresh: %v", err), info
@@ -332,7 +360,7 @@ func orEmpty(b []byte) []byte {
 
 var c18 = &h.Campaign[ByteCase]{
 	Prop: "C18", Sub: "roundtrip",
-	Rule: "rapid: byte strings by class (empty, ASCII, text with leading/inner/trailing White_Space code points, whitespace only, look-alikes that are not White_Space, invalid UTF-8 with and without surrounding whitespace, NULs, random binary, 64 KiB - 4 MiB patterns) put through setec.Client into the real handlers and database (one case in four: first while the state directory is unavailable - must fail - then again), with a Store + FileCache already running on a longer earlier version; read back by get / get-version / conditional get, from a database re-opened right after the acknowledgement and again later, through a Store handle, GetString, the FileCache document (decoded by the harness's own codec), a Store restarted from that cache with an unreachable service, and a FileClient on that cache (non-empty values); non-trivial = invalid UTF-8, surrounding whitespace, or >= 64 KiB; distinct by (class, bytes)",
+	Rule:  "rapid: byte strings by class (empty, ASCII, text with leading/inner/trailing White_Space code points, whitespace only, look-alikes that are not White_Space, invalid UTF-8 with and without surrounding whitespace, NULs, random binary, 64 KiB - 4 MiB patterns) put through setec.Client into the real handlers and database (one case in four: first while the state directory is unavailable - must fail - then again), with a Store + FileCache already running on a longer earlier version; read back by get / get-version / conditional get, from a database re-opened right after the acknowledgement and again later, through a Store handle, GetString, the FileCache document (decoded by the harness's own codec), a Store restarted from that cache with an unreachable service, and a FileClient on that cache (non-empty values); non-trivial = invalid UTF-8, surrounding whitespace, or >= 64 KiB; distinct by (class, bytes)",
 	Quick: 500, Thorough: 60000,
 	Gen: func(rt *rapid.T) ByteCase {
 		c := genBytes(rt)
@@ -352,6 +380,9 @@ type CLICase struct {
 	Trim     bool     `json:"trim_space"`
 	EmptyOK  bool     `json:"empty_ok"`
 	FromFile bool     `json:"from_file"` // else: piped on stdin
+	// with FromFile: the "file" named is /dev/stdin, i.e. a pipe (as with process substitution or a FIFO):
+	// something that can be read to the end but has no size to ask for beforehand
+	PipeAsFile bool `json:"pipe_as_file,omitempty"`
 }
 
 type cliServer struct {
@@ -418,7 +449,10 @@ func runC18CLI(t *testing.T, c CLICase) (*h.Violation, h.Info) {
 	ctx, cancel := context.WithTimeout(context.Background(), 60*time.Second)
 	defer cancel()
 	var stdin *os.File
-	if c.FromFile {
+	if c.FromFile && c.PipeAsFile {
+		args = append(args, "--from-file", "/dev/stdin")
+		info.Class("source-file-that-is-a-pipe")
+	} else if c.FromFile {
 		p := filepath.Join(dir, "input.bin")
 		os.WriteFile(p, input, 0o600)
 		args = append(args, "--from-file", p)
@@ -428,7 +462,7 @@ func runC18CLI(t *testing.T, c CLICase) (*h.Violation, h.Info) {
 	}
 	args = append(args, "cli/secret")
 	cmd := exec.CommandContext(ctx, bin, args...)
-	if !c.FromFile {
+	if !c.FromFile || c.PipeAsFile {
 		cmd.Stdin = bytes.NewReader(input) // a pipe, never a terminal
 	} else {
 		stdin, _ = os.Open(os.DevNull)
@@ -444,7 +478,7 @@ func runC18CLI(t *testing.T, c CLICase) (*h.Violation, h.Info) {
 	mu.Lock()
 	n := nreq
 	mu.Unlock()
-	desc := fmt.Sprintf("setec put verbatim=%v trim-space=%v empty-ok=%v source=%s input(%s)=%d bytes %.40q", c.Verbatim, c.Trim, c.EmptyOK, map[bool]string{true: "file", false: "pipe"}[c.FromFile], c.Input.Class, len(input), input)
+	desc := fmt.Sprintf("setec put verbatim=%v trim-space=%v empty-ok=%v source=%s input(%s)=%d bytes %.40q", c.Verbatim, c.Trim, c.EmptyOK, map[bool]string{true: map[bool]string{true: "file(/dev/stdin, a pipe)", false: "file"}[c.PipeAsFile], false: "pipe"}[c.FromFile], c.Input.Class, len(input), input)
 	if !sent {
 		info.Class("refused")
 		if runErr == nil {
@@ -474,10 +508,11 @@ func runC18CLI(t *testing.T, c CLICase) (*h.Violation, h.Info) {
 
 var c18cli = &h.Campaign[CLICase]{
 	Prop: "C18", Sub: "cli",
-	Rule: "rapid: the setec binary built from /repo runs `put` against an in-process server on a loopback listener for every combination of --verbatim, --trim-space, --empty-ok and source (--from-file or a pipe on stdin) with inputs from the same byte classes (up to 1 MiB); an independent policy (own White_Space table, own UTF-8 validator) predicts sent-verbatim / sent-trimmed / refused; refused => non-zero exit and zero requests at the server, sent => stored bytes equal the prediction; non-trivial = invalid UTF-8, surrounding whitespace or >= 64 KiB input; distinct by scenario",
+	Rule:  "rapid: the setec binary built from /repo runs `put` against an in-process server on a loopback listener for every combination of --verbatim, --trim-space, --empty-ok and source (--from-file or a pipe on stdin) with inputs from the same byte classes (up to 1 MiB); an independent policy (own White_Space table, own UTF-8 validator) predicts sent-verbatim / sent-trimmed / refused; refused => non-zero exit and zero requests at the server, sent => stored bytes equal the prediction; non-trivial = invalid UTF-8, surrounding whitespace or >= 64 KiB input; distinct by scenario",
 	Quick: 200, Thorough: 20000,
 	Gen: func(rt *rapid.T) CLICase {
 		c := CLICase{Input: genBytesOf(rt, cliClasses), Verbatim: rapid.Bool().Draw(rt, "verbatim"), Trim: rapid.Bool().Draw(rt, "trim"), EmptyOK: rapid.Bool().Draw(rt, "emptyok"), FromFile: rapid.Bool().Draw(rt, "fromfile")}
+		c.PipeAsFile = c.FromFile && rapid.IntRange(0, 2).Draw(rt, "pipeasfile") == 0
 		if c.Input.Big > 1<<20 {
 			c.Input.Big = 1 << 20
 		}
